@@ -232,10 +232,9 @@ class _Hole:
         self.slot = slot
 
 
-def shapes(names, depth_ops):
-    """All trees with exactly depth_ops operators from `names` (as nested (opname, kids) with _Hole leaves)."""
-    if depth_ops == 0:
-        return None
+def shapes(names, depth_ops, root_names=None):
+    """All trees with exactly depth_ops operators from `names` (as nested (opname, kids) with _Hole leaves);
+    root_names restricts the operator at the root."""
     out = []
 
     def build(nops, slot):
@@ -243,7 +242,7 @@ def shapes(names, depth_ops):
         if nops == 0:
             yield _Hole(slot)
             return
-        for name in names:
+        for name in (names if (root_names is None or nops < depth_ops) else root_names):
             if not _allowed(slot, name):
                 continue
             _, slots, _ = OPBY[name]
@@ -308,9 +307,7 @@ def shape_ops(shape):
 def trees(names, nops, root_names=None):
     """[(label, tree)] for every tree with nops operators; label = operator names root-first plus shape path."""
     res = []
-    for sh in shapes(names, nops):
-        if root_names is not None and sh[0] not in root_names:
-            continue
+    for sh in shapes(names, nops, root_names):
         res.append((shape_label(sh), realise(sh)))
     return res
 
